@@ -68,9 +68,9 @@ def _analyses():
             "(value, tangent) order and zero tangents of the right space (A13.zero/A2.tuple), VJP/JVP factor agreement of elementwise rules (A5).",
         ),
         "C03": (
-            [kc.backward_pass, km.toposort, kc.dispatch, kt.wrapper, kc.raise_discipline, ka.arraybox_table],
+            [kc.backward_pass, km.toposort, kc.dispatch, kt.wrapper, kc.raise_discipline, ka.arraybox_table, kc.ownership, km.container_vspaces],
             "Chain rule over arbitrary graphs: path property of one backward_pass iteration (node.vjp exactly once, one add_outgrads per parent edge keyed by that parent, "
-            "accumulating into the current entry), alignment of parents/argnums/rules in the wrapper and in all dispatch branches (A13.align), node constructor slots (A2.slot).",
+            "accumulating into the current entry), the accumulation itself (add_outgrads ownership typestate A9.proto; container spaces delegate _add/_mut_add to the same-named child operation and keep the result, A14.vspace), alignment of parents/argnums/rules in the wrapper and in all dispatch branches (A13.align), node constructor slots (A2.slot).",
         ),
         "C04": (
             [a5_factor.agree, a5_linear.closures_linear, a1.lin, a3.vjp, a3.jvp, a17_labels.contraction_adjoints],
@@ -89,9 +89,9 @@ def _analyses():
             "parameter names, positions and defaults (A6.wrapsig); no in-place write to a parameter (A9.inplace).",
         ),
         "C07": (
-            [a8_taint.traceable, a1.helpers, kc.closure_reuse, a5_factor.agree, kt.trace_fn, kt.wrapper, kt.find_top, kt.new_trace],
+            [a8_taint.traceable, a1.helpers, kc.closure_reuse, a5_factor.agree, a5_linear.closures_linear, kt.trace_fn, kt.wrapper, kt.find_top, kt.new_trace],
             "Closure under differentiation: no raw numpy call on a possibly traced operand inside a non-primitive rule body (A8), every helper primitive used at backward time "
-            "has its own VJP and VSpace arithmetic has both rules (A1.helpers), backward closures are re-usable (A10).",
+            "has its own VJP and VSpace arithmetic has both rules (A1.helpers), backward closures are re-usable (A10), no rule selects on the raw value of its (co)tangent unless the shortcut is disabled for traced (co)tangents (A5.lin/A5.cut).",
         ),
         "C08": (
             [kt.trace_fn, kt.wrapper, kt.find_top, kt.new_trace, ka.operators, km.products],
@@ -124,9 +124,9 @@ def _analyses():
             "compares type and structure fields, ComplexArrayVSpace overrides (A4.vspace), purity and mut_add(None, x) freshness (A9.pure).",
         ),
         "C14": (
-            [kc.zero_paths, kc.closure_reuse, a1.nograd, a1.sym, a1.none_rules, a1.methods, ka.arraybox_table, kt.wrapper, kt.notrace_wrapper, kt.trace_fn],
+            [kc.zero_paths, kc.closure_reuse, a1.nograd, a1.sym, a1.none_rules, a1.methods, ka.arraybox_table, kt.wrapper, kt.notrace_wrapper, kt.trace_fn, a3.vjp_locally_constant],
             "Exact zeros: independent outputs give zeros of the right space and never None (A13.zero); everything declared non-differentiable is locally constant (A1.nograd/none/methods, "
-            "facts about NumPy) for both node types (A1.sym); comparisons map to untraced functions, __bool__/shape/len read the raw value (A14); the notrace branch returns plain values.",
+            "facts about NumPy) for both node types (A1.sym); comparisons map to untraced functions, __bool__/shape/len read the raw value (A14); the notrace branch returns plain values; a written-out rule for a locally constant argument has that argument's shape support (A3.vjp).",
         ),
         "C15": (
             [kc.raise_discipline, ka.guard_dominance, ka.option_domains, ka.sibling_guards, ka.raw_calls_in_wrappers, ka.arraybox_table, ka.operators, a1.nograd, a1.none_rules, _namespace_classes, km.wrap_namespace, km.guard_functions, a16_perm.norm_support],
